@@ -314,6 +314,7 @@ func runC19(c *Ctx) {
 		k.nilDerefs(f)
 		k.bounds(f)
 		k.misc(f)
+		k.hashing(f)
 		k.definiteNil(f)
 		k.preconditions(f)
 	}
@@ -527,18 +528,28 @@ func (k *c19) indexDischarged(f *ssa.Function, at ssa.Instruction, X, idx ssa.Va
 		}
 		l, r := bo.X, bo.Y
 		op := bo.Op
-		if c.Path(l, nil) == lenX {
+		if c.Path(l, nil) == lenX || (r == idx && l != idx) {
 			l, r = r, l
 			op = flipOp(op)
 		}
-		if c.Path(r, nil) != lenX || op != token.LSS {
+		if op != token.LSS || l != idx {
 			continue
 		}
-		if l != idx {
+		if !(len(b.Succs[0].Preds) == 1 && b.Succs[0].Dominates(at.Block()) && nonNegative(idx)) {
 			continue
 		}
-		if len(b.Succs[0].Preds) == 1 && b.Succs[0].Dominates(at.Block()) && nonNegative(idx) {
+		rp := c.Path(r, nil)
+		if rp == lenX {
 			return true
+		}
+		// idx < len(A) on a dominating edge and len(A) >= len(X) (or >) rejected before: idx < len(A) <= len(X)
+		if strings.HasPrefix(rp, "len(") {
+			for _, rej := range []token.Token{token.GEQ, token.GTR} {
+				chk := cmpReject(rp+" >= "+lenX+" rejected", rej, pathIs(rp), pathIs(lenX))
+				if ok, _, n := c.Guard(f, nil, chk, func(in ssa.Instruction) bool { return in == at }); ok && n > 0 {
+					return true
+				}
+			}
 		}
 	}
 	return false
@@ -687,6 +698,22 @@ func (k *c19) sliceBounds(f *ssa.Function, s *ssa.Slice) {
 		}
 	}
 	xp := c.Path(s.X, nil)
+	// X[k:] with len(X) >= k known
+	if kc, ok := s.Low.(*ssa.Const); ok && s.High == nil {
+		if kv, ok2 := constant.Int64Val(kc.Value); ok2 && kv >= 0 && k.lenAtLeast(f, s, "len("+xp+")", kv) {
+			k.obl("C19.B", key, true, instrPos(s), "constant lower bound not above a length known on every path")
+			return
+		}
+	}
+	// X[i:i+1] with 0 <= i < len(X)
+	if s.Low != nil && s.High != nil && s.Max == nil {
+		if bo, ok := s.High.(*ssa.BinOp); ok && bo.Op == token.ADD && bo.X == s.Low {
+			if kc, isK := bo.Y.(*ssa.Const); isK && kc.Value != nil && kc.Value.ExactString() == "1" && k.indexDischarged(f, s, s.X, s.Low) {
+				k.obl("C19.B", key, true, instrPos(s), "one-element window [i:i+1] with i bounded by a dominating comparison with len of the same value")
+				return
+			}
+		}
+	}
 	// s[Index(s, sep)+1:] / s[LastIndex(s, sep)+1:] : the bound is in [0, len(s)] by construction
 	if s.High == nil {
 		lp := c.Path(s.Low, nil)
@@ -709,6 +736,115 @@ func (k *c19) sliceBounds(f *ssa.Function, s *ssa.Slice) {
 	}
 	why, ok := k.isReviewed(f, e)
 	k.obl("C19.B", key, ok, instrPos(s), "slice expression "+e+": "+orUndischargedB(why, ok))
+}
+
+// ---- H: unhashable map keys and uncomparable interface comparisons ---------------------------------
+// A map whose key type is (or contains) an interface panics at run time ("hash of unhashable type") when the
+// dynamic type of a key is a map, slice or function — exactly what encoding/json produces for JSON objects
+// and arrays decoded into interface{}. Comparing two interface values with == panics likewise when both hold
+// the same uncomparable dynamic type.
+func (k *c19) hashing(f *ssa.Function) {
+	c := k.c
+	k.counts["C19.H-functions-scanned"]++
+	forEachInstr(f, func(in ssa.Instruction) {
+		var m, key ssa.Value
+		switch x := in.(type) {
+		case *ssa.MapUpdate:
+			m, key = x.Map, x.Key
+		case *ssa.Lookup:
+			if _, isMap := x.X.Type().Underlying().(*types.Map); isMap {
+				m, key = x.X, x.Index
+			}
+		case *ssa.BinOp:
+			if (x.Op == token.EQL || x.Op == token.NEQ) && types.IsInterface(x.X.Type()) && types.IsInterface(x.Y.Type()) {
+				if staticallyHashable(x.X) || staticallyHashable(x.Y) {
+					return
+				}
+				// non-empty interfaces (error, hash.Hash, ...) hold module / library implementations, not decoded JSON
+				if !isEmptyInterface(x.X.Type()) && !isEmptyInterface(x.Y.Type()) {
+					return
+				}
+				e := c.Path(x, nil)
+				why, ok := k.isReviewed(f, e)
+				k.obl("C19.H", short(f.String())+": "+e, ok, x.Pos(), "== on two interface{} values panics when both hold the same uncomparable dynamic type (map / slice, as decoded JSON objects and arrays are)"+reviewedNote(why, ok))
+			}
+			return
+		default:
+			return
+		}
+		if m == nil {
+			return
+		}
+		mt := m.Type().Underlying().(*types.Map)
+		if !containsInterface(mt.Key(), 0) {
+			return
+		}
+		if staticallyHashable(key) {
+			k.counts["C19.H-interface-keyed-map-accesses-with-hashable-key"]++
+			return
+		}
+		e := c.Path(m, nil) + "[" + c.Path(key, nil) + "]"
+		why, ok := k.isReviewed(f, e)
+		k.obl("C19.H", short(f.String())+": "+e, ok, instrPos(in), "map with interface-typed key "+mt.Key().String()+" accessed with a key whose dynamic type is not fixed by the code: a JSON object or array as key panics (hash of unhashable type)"+reviewedNote(why, ok))
+	})
+}
+
+func reviewedNote(why string, ok bool) string {
+	if ok {
+		return " — REVIEWED: " + why
+	}
+	return "; no reviewed reason is recorded for this site"
+}
+
+func isEmptyInterface(t types.Type) bool {
+	it, ok := t.Underlying().(*types.Interface)
+	return ok && it.NumMethods() == 0
+}
+
+func containsInterface(t types.Type, depth int) bool {
+	if depth > 6 {
+		return true
+	}
+	switch u := t.Underlying().(type) {
+	case *types.Interface:
+		return true
+	case *types.Array:
+		return containsInterface(u.Elem(), depth+1)
+	case *types.Struct:
+		for i := 0; i < u.NumFields(); i++ {
+			if containsInterface(u.Field(i).Type(), depth+1) {
+				return true
+			}
+		}
+	}
+	return false
+}
+
+// staticallyHashable: the value is nil, a constant, or an interface made from a value of a concrete comparable
+// type without interface parts (its dynamic type is fixed by the code and hashable).
+func staticallyHashable(v ssa.Value) bool { return staticallyHashableD(v, 0) }
+
+func staticallyHashableD(v ssa.Value, depth int) bool {
+	if depth > 8 {
+		return false
+	}
+	switch x := v.(type) {
+	case *ssa.Const:
+		return true
+	case *ssa.MakeInterface:
+		t := x.X.Type()
+		return types.Comparable(t) && !containsInterface(t, 0)
+	case *ssa.ChangeInterface:
+		return staticallyHashableD(x.X, depth+1)
+	case *ssa.Phi:
+		for _, e := range x.Edges {
+			if !staticallyHashableD(e, depth+1) {
+				return false
+			}
+		}
+		return len(x.Edges) > 0
+	}
+	return !types.IsInterface(v.Type()) && types.Comparable(v.Type()) && !containsInterface(v.Type(), 0)
 }
 
 // ---- misc: explicit panic, division, make ---------------------------------------------------------
@@ -805,8 +941,134 @@ func (k *c19) preconditions(f *ssa.Function) {
 			}
 			okRec := k.underRecover(f)
 			k.obl("C19.G", short(f.String())+": json-patch Apply under recover", okRec, cl.Pos(), "json-patch v4.1.0 Apply panics on validated patches (negative array index in get; test on a missing value; nil lazyNode in equal): the call must run in a function with a deferred recover whose value becomes the error result")
+			k.aliasingCopy(f, cl)
 		}
 	})
+}
+
+// libCopyAliases derives from the library's own source whether its "copy" operation stores the node it read
+// from the source location into the destination without copying it (the value handed to set is the very
+// value returned by get). With such a library a node can be made a descendant of itself — by one copy whose
+// "from" is a proper prefix of its "path", or by a later operation through a node shared by an earlier copy —
+// and marshalling the result recurses until the stack is exhausted, which no recover can intercept.
+func (k *c19) libCopyAliases() (aliases, resolved bool) {
+	c := k.c
+	cp := c.MethodIn(jsonPatchPkg, "Patch", "copy")
+	if cp == nil {
+		return false, false
+	}
+	var gets = map[ssa.Value]bool{}
+	var setArg ssa.Value
+	nset := 0
+	forEachInstr(cp, func(in ssa.Instruction) {
+		cl, ok := in.(*ssa.Call)
+		if !ok || !cl.Call.IsInvoke() {
+			return
+		}
+		switch cl.Call.Method.Name() {
+		case "get":
+			gets[cl] = true
+		case "set", "add":
+			nset++
+			if len(cl.Call.Args) == 2 {
+				setArg = cl.Call.Args[1]
+			}
+		}
+	})
+	if len(gets) == 0 || nset != 1 || setArg == nil {
+		return false, false
+	}
+	if ex, ok := setArg.(*ssa.Extract); ok && gets[ex.Tuple] && ex.Index == 0 {
+		return true, true
+	}
+	return false, true
+}
+
+// aliasingCopy: obligations on a json-patch Apply call when the library's copy shares nodes.
+func (k *c19) aliasingCopy(f *ssa.Function, cl *ssa.Call) {
+	c := k.c
+	aliases, resolved := k.libCopyAliases()
+	if !resolved {
+		k.obl("C19.G", short(f.String())+": json-patch copy semantics", false, cl.Pos(), "the library's (Patch).copy could not be analysed (expected one get and one set on containers) — undecided (counts as failure)")
+		return
+	}
+	if !aliases {
+		k.counts["C19.G-json-patch-copy-does-not-alias"]++
+		return
+	}
+	const why = "json-patch v4.1.0 copy stores the source node itself at the destination (patch.go: val from con.get is handed to con.set); a node that becomes its own descendant makes json.Marshal of the result recurse until the stack is exhausted (fatal, not recoverable)"
+	// (a) one operation per Apply call: nodes shared by a copy do not survive into a later operation
+	var base ssa.Value
+	one := false
+	if sl, ok := cl.Call.Args[0].(*ssa.Slice); ok && sl.Low != nil && sl.High != nil {
+		if bo, isB := sl.High.(*ssa.BinOp); isB && bo.Op == token.ADD {
+			isOne := func(v ssa.Value) bool {
+				k, isK := v.(*ssa.Const)
+				return isK && k.Value != nil && k.Value.ExactString() == "1"
+			}
+			if (bo.X == sl.Low && isOne(bo.Y)) || (bo.Y == sl.Low && isOne(bo.X)) {
+				one, base = true, sl.X
+			}
+		}
+	}
+	k.obl("C19.G", short(f.String())+": json-patch Apply one operation per call", one, cl.Pos(), why+"; every Apply call must receive a one-operation patch p[i:i+1] so that each operation starts from freshly decoded bytes and no node is shared between operations")
+	if !one {
+		return
+	}
+	// (b) within one operation only a copy whose source contains its destination can close a cycle: a module
+	// function that looks at "op" == "copy", "from" and "path" of this operation must have accepted it
+	chk := &GCheck{Name: "copy-into-itself refused", NoDescend: true, MatchCall: func(c *Ctx, call *ssa.Call, env Env) bool {
+		g := call.Call.StaticCallee()
+		if !inModule(g) || !returnsError(g) {
+			return false
+		}
+		fromPatch := false
+		for _, a := range call.Call.Args {
+			if backSlice(a)[base] {
+				fromPatch = true
+			}
+		}
+		if !fromPatch {
+			return false
+		}
+		cs := c.stringConstsDeep(g, 3)
+		return cs["copy"] && cs["from"] && cs["path"]
+	}}
+	ok, w, _ := c.Guard(f, nil, chk, func(i ssa.Instruction) bool { return i == ssa.Instruction(cl) })
+	k.obl("C19.G", short(f.String())+": json-patch copy into itself refused", ok, cl.Pos(), why+"; before Apply the operation must have passed a check (a module function returning an error that inspects \"op\" == \"copy\", \"from\" and \"path\" of this operation) refusing a copy whose from is a proper prefix of its path", w...)
+}
+
+func returnsError(g *ssa.Function) bool {
+	res := g.Signature.Results()
+	return res.Len() > 0 && isErrType(res.At(res.Len()-1).Type())
+}
+
+// stringConstsDeep: the string constants used by g and by the module functions it calls statically (bounded depth).
+func (c *Ctx) stringConstsDeep(g *ssa.Function, depth int) map[string]bool {
+	out := map[string]bool{}
+	seen := map[*ssa.Function]bool{}
+	var walk func(h *ssa.Function, d int)
+	walk = func(h *ssa.Function, d int) {
+		if h == nil || seen[h] || len(h.Blocks) == 0 {
+			return
+		}
+		seen[h] = true
+		forEachInstr(h, func(in ssa.Instruction) {
+			var ops []*ssa.Value
+			for _, op := range in.Operands(ops) {
+				if k, ok := (*op).(*ssa.Const); ok && k.Value != nil && k.Value.Kind() == constant.String {
+					out[constant.StringVal(k.Value)] = true
+				}
+			}
+			if cl, ok := in.(*ssa.Call); ok && d > 0 {
+				if cal := cl.Call.StaticCallee(); inModule(cal) {
+					walk(cal, d-1)
+				}
+			}
+		})
+	}
+	walk(g, depth)
+	return out
 }
 
 // underRecover: f defers a closure that calls recover() and stores an error into a named result of f.
